@@ -154,10 +154,21 @@ assert eco.ecos.solve is rec_ecos
 if HAVE_ORT:
     _orig_create = pywraplp.Solver.CreateSolver
 
+    class OrtProxy:
+        """the real pywraplp solver, except that Solve() returns a canned status without solving (all values 0)"""
+        def __init__(self, s):
+            self.__dict__['_s'] = s
+
+        def __getattr__(self, k):
+            return getattr(self.__dict__['_s'], k)
+
+        def Solve(self, *a):
+            return CANNED['ort_status']
+
     def _create(name):
         s = _orig_create(name)
         REC['ort_solver'] = (name, s)
-        return s
+        return OrtProxy(s)
     pywraplp.Solver.CreateSolver = staticmethod(_create)
 
     def read_ortools():
@@ -184,7 +195,23 @@ if HAVE_GRB:
             REC['grb_proxy'] = self
 
         def __getattr__(self, k):
+            # canned outcome of optimize(): status, and an incumbent (ObjVal / X) or none
+            if k == 'Status':
+                return CANNED['grb_status']
+            if k == 'Runtime':
+                return 0.0
+            if k == 'ObjVal':
+                if CANNED['grb_inc']:
+                    return CANNED['pcost']
+                raise AttributeError("Unable to retrieve attribute 'ObjVal'")
             return getattr(self.__dict__['_m'], k)
+
+        def getAttr(self, name, *a):
+            if name == 'X':
+                if CANNED['grb_inc']:
+                    return list(CANNED['x'][:self._m.NumVars])
+                raise AttributeError("Unable to retrieve attribute 'X'")
+            return self._m.getAttr(name, *a)
 
         def addMVar(self, shape, lb=0.0, ub=float('inf'), obj=0.0, vtype='C', name=''):
             self._log['mvar'] = {'lb': vec(lb), 'ub': vec(ub), 'vtype': ''.join(vtype)}
@@ -436,24 +463,37 @@ def run_iface(iface, target, rng):
                'pcost': fr(CANNED['pcost']), 'x': vec(CANNED['x'])}
         return f, REC['ecos'], (req, sol_json(s, n), None)
     if iface == 'ortools':
+        CANNED['ort_status'] = int(rng.choice([0, 0, 1, 2, 3, 4, 6]))     # OPTIMAL, FEASIBLE, INFEASIBLE, UNBOUNDED, ABNORMAL, NOT_SOLVED
         if is_model:
             quiet(lambda: target.solve(ort, display=False))
+            s = target.solution
         else:
-            quiet(lambda: ort.solve(f, display=False))
-        return f, read_ortools(), None
+            s = quiet(lambda: ort.solve(f, display=False))
+        req = {'op': 'iface_status', 'iface': 'ortools', 'status': CANNED['ort_status'], 'objval': '0', 'x': ['0'] * n}
+        return f, read_ortools(), (req, sol_json(s, n), None)
     if iface == 'gurobi':
+        # LOADED, OPTIMAL, INFEASIBLE, INF_OR_UNBD, UNBOUNDED, TIME_LIMIT, SUBOPTIMAL - each with and without an incumbent
+        CANNED['grb_status'] = int(rng.choice([2, 2, 3, 4, 5, 5, 9, 13, 1]))
+        CANNED['grb_inc'] = bool(rng.random() < 0.6)
+        s = None
         if is_model:
             quiet(lambda: target.solve(grb, display=False))
+            s = target.solution
         else:
             try:
-                quiet(lambda: grb.solve(f, display=False))
+                s = quiet(lambda: grb.solve(f, display=False))
             except UnboundLocalError:
                 # grb_solver crashes after the model is built when the program has no row at all
                 # (`c_eq` is never assigned); not reachable through ro.Model (objective row)
                 if f.linear.shape[0] != 0:
                     raise
                 REC['grb_crash_norows'] = True
-        return f, read_gurobi(), None
+        chk = None
+        if s is not None:
+            req = {'op': 'iface_status', 'iface': 'gurobi', 'status': CANNED['grb_status'], 'inc': int(CANNED['grb_inc']),
+                   'objval': fr(CANNED['pcost']), 'x': vec(CANNED['x'])}
+            chk = (req, sol_json(s, n), None)
+        return f, read_gurobi(), chk
     raise ValueError(iface)
 
 
